@@ -17,7 +17,8 @@ Inductive cls :=
   | CNone | CBool | CInt | CFloat | CStr | CBytes | CPath | CFile (f : fmt)
   | CList | CTuple | CSet | CFrozenset | CDict | CMulti            (* MultiInputObj *)
   | KAny | KSequence | KSetAbc | KMapping | KPathLike | KIterable | KFileSet
-  | KExt (n : nat).                                                  (* any other class met in a live table *)
+  | KExt (n : nat)                                                   (* any other class met in a live table *)
+  | KSub (n : nat).                                                  (* n-th registered (sub)class values can have *)
 
 Definition fmt_eqb (a b : fmt) : bool :=
   match a, b with FFile, FFile | FText, FText | FDir, FDir => true | _, _ => false end.
@@ -30,13 +31,15 @@ Definition cls_eqb (a b : cls) : bool :=
   | KIterable, KIterable | KFileSet, KFileSet => true
   | CFile f, CFile g => fmt_eqb f g
   | KExt n, KExt m => Nat.eqb n m
+  | KSub n, KSub m => Nat.eqb n m
   | _, _ => false
   end.
 
 Record tables := {
   t_rows : list (cls * list cls);          (* a |-> every b of the universe with issubclass(a, b) *)
   t_coercible : list (cls * cls);          (* TypeParser.__init__ default for [coercible] *)
-  t_not_coercible : list (cls * cls)       (* TypeParser.__init__ default for [not_coercible] *)
+  t_not_coercible : list (cls * cls);      (* TypeParser.__init__ default for [not_coercible] *)
+  t_subs : list cls                        (* the builtin class whose behaviour instances of KSub n have, by position *)
 }.
 
 Fixpoint lookup_row (a : cls) (rows : list (cls * list cls)) : list cls :=
@@ -56,21 +59,40 @@ Definition is_subclass (T : tables) (k c : cls) : bool :=
   end.
 
 (* ------------------------------------------------------------------ values *)
+(* A value is a builtin "shape" (how it behaves: iteration, ==, hash, constructors) plus a tag: [None] for an
+   instance of exactly the builtin class, [Some n] for an instance of the registered class KSub n — a subclass
+   (class Label(str), a str-Enum, numpy.str_, class MyList(list), ...) or a look-alike (numpy.int64 behaves like an
+   int without being one).  Which classes KSub n is a subclass of is in the generated issubclass matrix. *)
+Definition tag := option nat.
 Inductive val :=
-  | VNone | VBool (b : bool) | VInt (z : Z)
-  | VFloat (z : Z)                       (* the float whose value is the integer z *)
-  | VStr (s : string) | VBytes (s : string)
-  | VPath (s : string)                   (* pathlib.PosixPath, s = str(path) *)
-  | VFile (f : fmt) (s : string)         (* fileformats object of format f on path s *)
-  | VList (l : list val) | VTuple (l : list val)
-  | VSet (frozen : bool) (l : list val)  (* elements in iteration order *)
-  | VDict (kv : list (val * val)).       (* insertion order *)
+  | VNone | VBool (b : bool) | VInt (k : tag) (z : Z)
+  | VFloat (k : tag) (z : Z)                       (* the float whose value is the integer z *)
+  | VStr (k : tag) (s : string) | VBytes (k : tag) (s : string)
+  | VPath (k : tag) (s : string)                   (* pathlib.PosixPath, s = str(path) *)
+  | VFile (f : fmt) (s : string)                   (* fileformats object of format f on path s *)
+  | VList (k : tag) (l : list val) | VTuple (k : tag) (l : list val)
+  | VSet (k : tag) (frozen : bool) (l : list val)  (* elements in iteration order *)
+  | VDict (k : tag) (kv : list (val * val)).       (* insertion order *)
 
-Definition class_of (v : val) : cls :=
+Definition base_class (v : val) : cls :=
   match v with
-  | VNone => CNone | VBool _ => CBool | VInt _ => CInt | VFloat _ => CFloat | VStr _ => CStr
-  | VBytes _ => CBytes | VPath _ => CPath | VFile f _ => CFile f | VList _ => CList | VTuple _ => CTuple
-  | VSet false _ => CSet | VSet true _ => CFrozenset | VDict _ => CDict
+  | VNone => CNone | VBool _ => CBool | VInt _ _ => CInt | VFloat _ _ => CFloat | VStr _ _ => CStr
+  | VBytes _ _ => CBytes | VPath _ _ => CPath | VFile f _ => CFile f | VList _ _ => CList | VTuple _ _ => CTuple
+  | VSet _ false _ => CSet | VSet _ true _ => CFrozenset | VDict _ _ => CDict
+  end.
+Definition tag_of (v : val) : tag :=
+  match v with
+  | VNone | VBool _ | VFile _ _ => None
+  | VInt k _ | VFloat k _ | VStr k _ | VBytes k _ | VPath k _ | VList k _ | VTuple k _ | VSet k _ _ | VDict k _ => k
+  end.
+(* type(v); a tag that is not registered for this shape is ignored *)
+Definition class_of (T : tables) (v : val) : cls :=
+  match tag_of v with
+  | Some n => match nth_error (t_subs T) n with
+              | Some b => if cls_eqb b (base_class v) then KSub n else base_class v
+              | None => base_class v
+              end
+  | None => base_class v
   end.
 
 (* ------------------------------------------------------------------ types (annotation grammar) *)
@@ -129,30 +151,30 @@ Definition first_ok {A B} (f : A -> result B) : list A -> result B :=
 (* ------------------------------------------------------------------ Python value semantics *)
 Fixpoint hashable (v : val) : bool :=
   match v with
-  | VList _ | VDict _ | VSet false _ => false
-  | VTuple l => forallb hashable l
+  | VList _ _ | VDict _ _ | VSet _ false _ => false
+  | VTuple _ l => forallb hashable l
   | _ => true
   end.
 
 Definition num_of (v : val) : option Z :=
-  match v with VBool b => Some (if b then 1 else 0)%Z | VInt z | VFloat z => Some z | _ => None end.
+  match v with VBool b => Some (if b then 1 else 0)%Z | VInt _ z | VFloat _ z => Some z | _ => None end.
 
-(* Python == on the modelled values *)
+(* Python == on the modelled values (tags do not matter: Label('a') == 'a', MyList([1]) == [1]) *)
 Fixpoint py_eq (a b : val) {struct a} : bool :=
   match a, b with
   | VNone, VNone => true
-  | VStr s, VStr s' | VBytes s, VBytes s' | VPath s, VPath s' => String.eqb s s'
+  | VStr _ s, VStr _ s' | VBytes _ s, VBytes _ s' | VPath _ s, VPath _ s' => String.eqb s s'
   | VFile f s, VFile f' s' => fmt_eqb f f' && String.eqb s s'
-  | VList l, VList l' | VTuple l, VTuple l' =>
+  | VList _ l, VList _ l' | VTuple _ l, VTuple _ l' =>
       (fix go (l l' : list val) : bool :=
          match l, l' with
          | [], [] => true
          | x :: r, y :: r' => py_eq x y && go r r'
          | _, _ => false
          end) l l'
-  | VSet _ l, VSet _ l' =>
+  | VSet _ _ l, VSet _ _ l' =>
       Nat.eqb (List.length l) (List.length l') && forallb (fun x => existsb (fun y => py_eq x y) l') l
-  | VDict kv, VDict kv' =>
+  | VDict _ kv, VDict _ kv' =>
       Nat.eqb (List.length kv) (List.length kv') &&
       forallb (fun p => let '(k, x) := p in
                  existsb (fun q => let '(k', x') := q in py_eq k k' && py_eq x x') kv') kv
@@ -167,7 +189,7 @@ Fixpoint dedupe (l : list val) (acc : list val) : list val :=
   end.
 
 Definition mk_set (fr : bool) (l : list val) : result val :=
-  if forallb hashable l then Ok (VSet fr (dedupe l [])) else Err ETypeError.
+  if forallb hashable l then Ok (VSet None fr (dedupe l [])) else Err ETypeError.
 
 (* d[k] = x : an ==-equal key keeps the old key object and takes the new value *)
 Fixpoint dict_set (d : list (val * val)) (k x : val) : list (val * val) :=
@@ -177,17 +199,17 @@ Fixpoint dict_set (d : list (val * val)) (k x : val) : list (val * val) :=
   end.
 
 Fixpoint chars (s : string) : list val :=
-  match s with EmptyString => [] | String c r => VStr (String c EmptyString) :: chars r end.
+  match s with EmptyString => [] | String c r => VStr None (String c EmptyString) :: chars r end.
 Fixpoint codes (s : string) : list val :=
-  match s with EmptyString => [] | String c r => VInt (Z.of_nat (nat_of_ascii c)) :: codes r end.
+  match s with EmptyString => [] | String c r => VInt None (Z.of_nat (nat_of_ascii c)) :: codes r end.
 
 (* list(obj) / for o in obj *)
 Definition iter (v : val) : result (list val) :=
   match v with
-  | VStr s => Ok (chars s)
-  | VBytes s => Ok (codes s)
-  | VList l | VTuple l | VSet _ l => Ok l
-  | VDict kv => Ok (map fst kv)
+  | VStr _ s => Ok (chars s)
+  | VBytes _ s => Ok (codes s)
+  | VList _ l | VTuple _ l | VSet _ _ l => Ok l
+  | VDict _ kv => Ok (map fst kv)
   | _ => Err ETypeError
   end.
 
@@ -218,42 +240,43 @@ Fixpoint repr (v : val) : option string :=
   match v with
   | VNone => Some "None"
   | VBool b => Some (if b then "True" else "False")
-  | VInt z => Some (z_to_string z)
-  | VFloat z => if Z.ltb (Z.abs z) 10000000000000000 then Some (z_to_string z ++ ".0") else None
-  | VStr s => quoted s
-  | VBytes s => option_map (fun q => "b" ++ q) (quoted s)
-  | VPath s => option_map (fun q => "PosixPath(" ++ q ++ ")") (quoted s)
+  | VInt None z => Some (z_to_string z)
+  | VFloat None z => if Z.ltb (Z.abs z) 10000000000000000 then Some (z_to_string z ++ ".0") else None
+  | VStr None s => quoted s
+  | VBytes None s => option_map (fun q => "b" ++ q) (quoted s)
+  | VPath None s => option_map (fun q => "PosixPath(" ++ q ++ ")") (quoted s)
   | VFile f s => option_map (fun q => fmt_name f ++ "(" ++ q ++ ")") (quoted s)
-  | VList l => option_map (fun ss => "[" ++ join ", " ss ++ "]") (all_some (map repr l))
-  | VTuple l =>
+  | VList None l => option_map (fun ss => "[" ++ join ", " ss ++ "]") (all_some (map repr l))
+  | VTuple None l =>
       option_map (fun ss => match ss with [x] => "(" ++ x ++ ",)" | _ => "(" ++ join ", " ss ++ ")" end)
                  (all_some (map repr l))
-  | VSet fr l =>
+  | VSet None fr l =>
       option_map (fun ss => match ss, fr with
                             | [], false => "set()"
                             | [], true => "frozenset()"
                             | _, false => "{" ++ join ", " ss ++ "}"
                             | _, true => "frozenset({" ++ join ", " ss ++ "})"
                             end) (all_some (map repr l))
-  | VDict kv =>
+  | VDict None kv =>
       option_map (fun ss => "{" ++ join ", " ss ++ "}")
         (all_some (map (fun p => let '(k, x) := p in
                           match repr k, repr x with Some a, Some b => Some (a ++ ": " ++ b) | _, _ => None end) kv))
+  | _ => None          (* the repr of an instance of a registered subclass is that class's business *)
   end.
 
 (* str(v) *)
 Definition py_str (v : val) : option string :=
-  match v with VStr s | VPath s | VFile _ s => Some s | _ => repr v end.
+  match v with VStr _ s | VPath _ s | VFile _ s => Some s | _ => repr v end.
 
 Definition norm_path (s : string) : string := str_of (render (parse (la_of s))).
 
 Definition truthy (v : val) : bool :=
   match v with
-  | VNone => false | VBool b => b | VInt z | VFloat z => negb (Z.eqb z 0)
-  | VStr s | VBytes s => negb (String.eqb s "")
-  | VPath _ | VFile _ _ => true
-  | VList l | VTuple l | VSet _ l => negb (Nat.eqb (List.length l) 0)
-  | VDict kv => negb (Nat.eqb (List.length kv) 0)
+  | VNone => false | VBool b => b | VInt _ z | VFloat _ z => negb (Z.eqb z 0)
+  | VStr _ s | VBytes _ s => negb (String.eqb s "")
+  | VPath _ _ | VFile _ _ => true
+  | VList _ l | VTuple _ l | VSet _ _ l => negb (Nat.eqb (List.length l) 0)
+  | VDict _ kv => negb (Nat.eqb (List.length kv) 0)
   end.
 
 (* bytes(iterable of ints) *)
@@ -261,7 +284,7 @@ Fixpoint bytes_of (l : list val) : option string :=
   match l with
   | [] => Some EmptyString
   | x :: r =>
-      match (match x with VInt z => Some z | VBool b => Some (if b then 1 else 0)%Z | _ => None end) with
+      match (match x with VInt _ z => Some z | VBool b => Some (if b then 1 else 0)%Z | _ => None end) with
       | Some z => if Z.leb 0 z && Z.ltb z 256
                   then option_map (String (ascii_of_nat (Z.to_nat z))) (bytes_of r) else None
       | None => None
@@ -269,7 +292,7 @@ Fixpoint bytes_of (l : list val) : option string :=
   end.
 
 Definition is_pathish (v : val) : option string :=
-  match v with VStr s | VPath s | VFile _ s => Some s | _ => None end.
+  match v with VStr _ s | VPath _ s | VFile _ s => Some s | _ => None end.
 
 Record world := { w_abs : string -> string; w_check : fmt -> string -> option err }.
 
@@ -300,8 +323,8 @@ Definition fileset_ctor (f : fmt) (paths : list string) : result val :=
 (* coerce_obj's [type_(obj)] for the container classes, given the already coerced items *)
 Definition construct_container (c : cls) (items : list val) : result val :=
   match c with
-  | CList => Ok (VList items)
-  | CTuple => Ok (VTuple items)
+  | CList => Ok (VList None items)
+  | CTuple => Ok (VTuple None items)
   | CSet => mk_set false items
   | CFrozenset => mk_set true items
   | _ => Err EUnmodelled
@@ -311,23 +334,23 @@ Definition construct_container (c : cls) (items : list val) : result val :=
 Definition construct (c : cls) (v : val) : result val :=
   match c with
   | CBool => Ok (VBool (truthy v))
-  | CInt => match v with VBool _ | VInt _ => Ok (VInt (match num_of v with Some z => z | None => 0%Z end))
-                       | VFloat z => Ok (VInt z) | _ => Err EUnmodelled end
-  | CFloat => match num_of v with Some z => Ok (VFloat z) | None => Err EUnmodelled end
-  | CStr => match py_str v with Some s => Ok (VStr s) | None => Err EUnmodelled end
+  | CInt => match v with VBool _ | VInt _ _ => Ok (VInt None (match num_of v with Some z => z | None => 0%Z end))
+                       | VFloat _ z => Ok (VInt None z) | _ => Err EUnmodelled end
+  | CFloat => match num_of v with Some z => Ok (VFloat None z) | None => Err EUnmodelled end
+  | CStr => match py_str v with Some s => Ok (VStr None s) | None => Err EUnmodelled end
   | CBytes =>
       match v with
-      | VBytes _ => Ok v
-      | VStr _ | VNone | VFloat _ => Err ETypeError
-      | VList l | VTuple l | VSet _ l =>
-          match bytes_of l with Some s => Ok (VBytes s) | None => Err ETypeError end
-      | VDict kv => match bytes_of (map fst kv) with Some s => Ok (VBytes s) | None => Err ETypeError end
+      | VBytes _ s => Ok (VBytes None s)
+      | VStr _ _ | VNone | VFloat _ _ => Err ETypeError
+      | VList _ l | VTuple _ l | VSet _ _ l =>
+          match bytes_of l with Some s => Ok (VBytes None s) | None => Err ETypeError end
+      | VDict _ kv => match bytes_of (map fst kv) with Some s => Ok (VBytes None s) | None => Err ETypeError end
       | _ => Err EUnmodelled
       end
   | CPath => match v with
-             | VStr s => Ok (VPath (norm_path s))
-             | VPath _ => Ok v
-             | VFile _ s => Ok (VPath (norm_path s))
+             | VStr _ s => Ok (VPath None (norm_path s))
+             | VPath _ s => Ok (VPath None s)
+             | VFile _ s => Ok (VPath None (norm_path s))
              | _ => Err ETypeError
              end
   | CFile f =>
@@ -335,9 +358,9 @@ Definition construct (c : cls) (v : val) : result val :=
       | Some s => fileset_ctor f [s]
       | None =>
           match v with
-          | VList l | VTuple l | VSet _ l =>
+          | VList _ l | VTuple _ l | VSet _ _ l =>
               match all_some (map is_pathish l) with Some ps => fileset_ctor f ps | None => Err ETypeError end
-          | VDict kv =>
+          | VDict _ kv =>
               match all_some (map is_pathish (map fst kv)) with Some ps => fileset_ctor f ps | None => Err ETypeError end
           | _ => Err ETypeError
           end
@@ -345,12 +368,12 @@ Definition construct (c : cls) (v : val) : result val :=
   | CNone => Err ETypeError
   | CList | CTuple | CSet | CFrozenset =>
       match iter v with Ok items => construct_container c items | Err e => Err e end
-  | CDict => match v with VDict _ => Ok v | _ => Err EUnmodelled end
+  | CDict => match v with VDict _ kv => Ok (VDict None kv) | _ => Err EUnmodelled end
   | _ => Err EUnmodelled
   end.
 
 (* TypeParser.is_instance(obj, candidate) *)
-Definition is_instance (v : val) (c : cls) : bool := is_subclass T (class_of v) c.
+Definition is_instance (v : val) (c : cls) : bool := is_subclass T (class_of T v) c.
 
 (* the [source] argument of check_type_coercible: a real class, or the typing.Union special form *)
 Inductive src_kind := SCls (k : cls) | SUnionForm.
@@ -397,35 +420,51 @@ Definition check_type_coercible (source target : cls) : result unit :=
 
 (* check_coercible(obj, target), with the sequence-of-paths-into-a-FileSet shortcut *)
 Definition check_coercible (v : val) (target : cls) : result unit :=
-  if sub T (class_of v) KSequence && sub T target KFileSet &&
-     match iter v with Ok items => forallb (fun p => sub T (class_of p) KPathLike) items | Err _ => false end
+  if sub T (class_of T v) KSequence && sub T target KFileSet &&
+     match iter v with Ok items => forallb (fun p => sub T (class_of T p) KPathLike) items | Err _ => false end
   then Ok tt
-  else check_type_coercible (class_of v) target.
+  else check_type_coercible (class_of T v) target.
 
 Definition coerce_basic (c : cls) (v : val) : result val :=
   if is_instance v c then Ok v
   else match check_coercible v c with Err e => Err e | Ok _ => construct c v end.
 
-(* the head of expand_and_coerce for a container pattern: the class the result is built with *)
-Definition enter (origin : cls) (v : val) : result cls :=
-  if is_instance v origin then Ok (class_of v)
-  else match check_coercible v origin with Err e => Err e | Ok _ => Ok origin end.
+(* the head of expand_and_coerce for a container pattern: [true] when the object is an instance of the origin (the
+   result is then built with type(obj)), [false] when it is coercible to it (built with the origin) *)
+Definition enter (origin : cls) (v : val) : result bool :=
+  if is_instance v origin then Ok true
+  else match check_coercible v origin with Err e => Err e | Ok _ => Ok false end.
 
-Definition build (type_ : cls) (r : result (list val)) : result val :=
-  match r with Err e => Err e | Ok items => construct_container type_ items end.
+(* type(obj)(items) for an instance of the origin: same class (same tag), new items *)
+Definition keep (origin : cls) (v : val) (items : list val) : result val :=
+  match origin, v with
+  | CList, VList k _ => Ok (VList k items)
+  | CTuple, VTuple k _ => Ok (VTuple k items)
+  | CSet, VSet k false _ =>
+      if forallb hashable items then Ok (VSet k false (dedupe items [])) else Err ETypeError
+  | CFrozenset, VSet k true _ =>
+      if forallb hashable items then Ok (VSet k true (dedupe items [])) else Err ETypeError
+  | _, _ => Err EUnmodelled
+  end.
+
+Definition build (origin : cls) (v : val) (inst : bool) (r : result (list val)) : result val :=
+  match r with
+  | Err e => Err e
+  | Ok items => if inst then keep origin v items else construct_container origin items
+  end.
 
 Definition wrap1 (r : result val) : result val :=
-  match r with Ok x => Ok (VList [x]) | Err e => Err e end.
+  match r with Ok x => Ok (VList None [x]) | Err e => Err e end.
 
 (* isinstance(obj, (str, bytes)) *)
-Definition is_vstr (v : val) : bool := match v with VStr _ | VBytes _ => true | _ => false end.
+Definition is_vstr (v : val) : bool := is_instance v CStr || is_instance v CBytes.
 
 (* coerce_sequence / coerce_tuple with a (t, ...) pattern, reached through expand_and_coerce:
    [f] is expand_and_coerce on the item pattern *)
 Definition coerce_seq (origin : cls) (f : val -> result val) (v : val) : result val :=
   match enter origin v with
   | Err e => Err e
-  | Ok type_ => match iter v with Err e => Err e | Ok items => build type_ (map_res f items) end
+  | Ok inst => match iter v with Err e => Err e | Ok items => build origin v inst (map_res f items) end
   end.
 
 (* [expand_and_coerce(o, p) for o, p in zip(obj_args, pattern_args)] *)
@@ -443,11 +482,11 @@ Fixpoint zip_res (fs : list (val -> result val)) (items : list val) : result (li
 Definition coerce_tuple (fs : list (val -> result val)) (v : val) : result val :=
   match enter CTuple v with
   | Err e => Err e
-  | Ok type_ =>
+  | Ok inst =>
       match iter v with
       | Err e => Err e
       | Ok items =>
-          if Nat.eqb (List.length fs) (List.length items) then build type_ (zip_res fs items)
+          if Nat.eqb (List.length fs) (List.length items) then build CTuple v inst (zip_res fs items)
           else Err ETypeError
       end
   end.
@@ -469,9 +508,12 @@ Fixpoint dict_res (fk fx : val -> result val) (kv acc : list (val * val)) : resu
 Definition coerce_dict (fk fx : val -> result val) (v : val) : result val :=
   match enter CDict v with
   | Err e => Err e
-  | Ok type_ =>
+  | Ok inst =>
       match v with
-      | VDict kv => match dict_res fk fx kv [] with Err e => Err e | Ok d => Ok (VDict d) end
+      | VDict k kv => match dict_res fk fx kv [] with
+                      | Err e => Err e
+                      | Ok d => Ok (VDict (if inst then k else None) d)       (* type_(dict) *)
+                      end
       | _ => Err ETypeError                             (* obj.items(): AttributeError -> TypeError *)
       end
   end.
@@ -480,7 +522,7 @@ Definition coerce_dict (fk fx : val -> result val) (v : val) : result val :=
 Definition coerce_multi (f : val -> result val) (v : val) : result val :=
   if is_vstr v then wrap1 (f v)
   else match (match iter v with Err e => Err e | Ok items => map_res f items end) with
-       | Ok l => Ok (VList l)                            (* coerce_sequence(list, obj, args) *)
+       | Ok l => Ok (VList None l)                       (* coerce_sequence(list, obj, args) *)
        | Err ETypeError => wrap1 (f v)
        | Err e => Err e
        end.
@@ -500,7 +542,7 @@ Fixpoint coerce (t : ty) (v : val) {struct t} : result val :=
 
 (* ensure_list (pydra/utils/general.py), the pre-converter make_converter adds for MultiInputFile *)
 Definition ensure_list (v : val) : val :=
-  match v with VNone => VList [] | VList _ => v | _ => VList [v] end.
+  match v with VNone => VList None [] | _ => if is_instance v CList then v else VList None [v] end.
 
 End WithTables.
 
@@ -509,7 +551,7 @@ End WithTables.
 Definition is_multi_file (t : ty) : bool :=
   match t with TMulti (TBase (CFile FFile)) => true | _ => false end.
 Definition assign (T : tables) (W : world) (t : ty) (v : val) : result val :=
-  coerce T W true t (if is_multi_file t then ensure_list v else v).
+  coerce T W true t (if is_multi_file t then ensure_list T v else v).
 
 (* an attribute with on_setattr=convert: a rejected assignment leaves the old value *)
 Definition set_field (T : tables) (W : world) (t : ty) (old : val) (v : val) : val :=
@@ -682,25 +724,29 @@ Definition abs_path (cwd p : string) : string :=
 Definition world_of (cwd : string) (fs : list (string * fkind)) : world :=
   {| w_abs := abs_path cwd; w_check := fun f p => accepts f (kind_of fs p) |}.
 
-(* equality of observed and modelled values: structural, sets compared without order *)
+(* equality of observed and modelled values: structural (tags included), sets compared without order *)
+Definition tag_eqb (a b : tag) : bool :=
+  match a, b with None, None => true | Some n, Some m => Nat.eqb n m | _, _ => false end.
 Fixpoint val_equiv (a b : val) {struct a} : bool :=
   match a, b with
   | VNone, VNone => true
   | VBool x, VBool y => Bool.eqb x y
-  | VInt x, VInt y | VFloat x, VFloat y => Z.eqb x y
-  | VStr s, VStr s' | VBytes s, VBytes s' | VPath s, VPath s' => String.eqb s s'
+  | VInt k x, VInt k' y | VFloat k x, VFloat k' y => tag_eqb k k' && Z.eqb x y
+  | VStr k s, VStr k' s' | VBytes k s, VBytes k' s' | VPath k s, VPath k' s' => tag_eqb k k' && String.eqb s s'
   | VFile f s, VFile f' s' => fmt_eqb f f' && String.eqb s s'
-  | VList l, VList l' | VTuple l, VTuple l' =>
+  | VList k l, VList k' l' | VTuple k l, VTuple k' l' =>
+      tag_eqb k k' &&
       (fix go (l l' : list val) : bool :=
          match l, l' with
          | [], [] => true
          | x :: r, y :: r' => val_equiv x y && go r r'
          | _, _ => false
          end) l l'
-  | VSet fr l, VSet fr' l' =>
-      Bool.eqb fr fr' && Nat.eqb (List.length l) (List.length l') &&
+  | VSet k fr l, VSet k' fr' l' =>
+      tag_eqb k k' && Bool.eqb fr fr' && Nat.eqb (List.length l) (List.length l') &&
       forallb (fun x => existsb (fun y => val_equiv x y) l') l
-  | VDict kv, VDict kv' =>
+  | VDict k kv, VDict k' kv' =>
+      tag_eqb k k' &&
       (fix go (l l' : list (val * val)) : bool :=
          match l, l' with
          | [], [] => true
